@@ -11,7 +11,7 @@ total functions here.  Proved for all inputs / options:
 from contracts.canonicalize_url import lib
 
 # lowercase_url (a contract-less, loop-free helper of the module: inlined): control characters are dropped, then escaped ASCII letters are decoded between two lower-casings
-LU = "uf('unquote', 'Str', uf('re_sub', 'Str', CONTROL_CHARS_RE, '', old(url)).lower(), EVERYTHING_BUT_LETTERS).lower()"
+LU = "uf('unquote_letters', 'Str', uf('re_sub', 'Str', CONTROL_CHARS_RE, '', old(url)).lower()).lower()"
 N = "uf('normalize_url', 'Obj', %s, False, lang_query_item_filter, platform_aware)" % LU
 P1, P2, P3, P4 = ("unpack(%s, %d, 'Str')" % (N, i) for i in (1, 2, 3, 4))
 LQ = "%s.lower()" % P3
@@ -37,7 +37,7 @@ GU = ("uf('urlsplit', 'Obj', uf('ensure_protocol', 'Str', uf('re_sub', 'Str', CO
 
 MODULE = {
     "file": "ural/fingerprint_url.py", "auto": True,
-    "consts": {"EVERYTHING_BUT_LETTERS": ("Opaque", "Obj"), "lang_query_item_filter": ("Opaque", "Obj"), "qsl_sort_key": ("Opaque", "Obj"), "SplitResult": ("Opaque", "Obj")},
+    "consts": {"lang_query_item_filter": ("Opaque", "Obj"), "qsl_sort_key": ("Opaque", "Obj"), "SplitResult": ("Opaque", "Obj")},
     "obj_attrs": {"username": "Opt[Str]", "password": "Opt[Str]", "hostname": "Opt[Str]", "port": "Opt[Int]"},
     "library": {
         "Obj.sub": {"params": ["repl", "string"], "receiver": "pattern", "types": {"pattern": "Obj", "repl": "Str", "string": "Str"},
@@ -46,7 +46,7 @@ MODULE = {
                           "types": {"url": "Str", "unsplit": "Bool", "query_item_filter": "Obj", "platform_aware": "Bool"}, "returns": "Obj",
                           "result_meta": {"unpack": ["Str", "Str", "Str", "Str", "Str"]},
                           "ensures": ["result == uf('normalize_url', 'Obj', url, unsplit, query_item_filter, platform_aware)"]},
-        "unquote": lib("unquote", ["string", "unsafe"], ["Str", "Obj"], "Str"),
+        "unquote_letters": lib("unquote_letters", ["string"], ["Str"], "Str"),
         "SplitResult": lib("SplitResult", ["scheme", "netloc", "path", "query", "fragment"], ["Str", "Str", "Str", "Str", "Str"], "Obj"),
         "urlunsplit": lib("urlunsplit", ["parts"], ["Obj"], "Str"),
         "safe_qsl_iter": lib("safe_qsl_iter", ["query"], ["Str"], "Obj"),
